@@ -50,7 +50,9 @@ pub uninterp spec fn mutex_after<T: ?Sized>(l: &std::sync::Mutex<T>) -> &T;
 pub uninterp spec fn mguard_final<'a, T: ?Sized>(g: &std::sync::MutexGuard<'a, T>) -> &'a T;
 /// a new mutex is not poisoned
 pub assume_specification<T>[ std::sync::Mutex::<T>::new ](t: T) -> (r: std::sync::Mutex<T>)
-    ensures !mutex_poisoned(&r);
+    ensures !mutex_poisoned(&r), mutex_init(&r) == t;
+/// the value a mutex was created with (not what it holds at a later lock: that is `mutex_content`)
+pub uninterp spec fn mutex_init<T>(l: &std::sync::Mutex<T>) -> T;
 pub assume_specification<'a, 'b, T: ?Sized>[ <std::sync::MutexGuard<'a, T> as core::ops::DerefMut>::deref_mut ](g: &'b mut std::sync::MutexGuard<'a, T>) -> (r: &'b mut T)
     ensures same_val::<T>(&*r, mguard_content(old(g))), same_val::<T>(&*final(r), mguard_final(old(g)));
 pub assume_specification<'a, 'b, T: ?Sized>[ <std::sync::MutexGuard<'a, T> as core::ops::Deref>::deref ](g: &'b std::sync::MutexGuard<'a, T>) -> (r: &'b T);
